@@ -296,8 +296,6 @@ Definition run_hex (a : list (list Q) * list (list nat) * (list nat * list (list
 Definition run_wedge (a : list (list Q) * list (list nat) * (list nat * list (list Q))) :=
   let '(p, t, (cand, xs)) := a in let nt := length (nth 0 t []) in
   gen_wedge_finder (tet_inside_cell EPS (splitfn p t gen_wedge_sels nt)) nt cand (map ptfn xs).
-Definition run_line (a : list Q * list nat * list nat * list Q) :=
-  let '(ps, ixs, maxt, xs) := a in line_finder ps ixs maxt xs.
 Definition onats_eqb := option_eqb nats_eqb.
 '''.replace('EPS', EPS_Q)
 
@@ -367,7 +365,7 @@ def tensor_mesh(rng, kind, shear=True, graded=False, nonconvex=False):
     return m
 
 
-def line_mesh(rng, n):
+def line_mesh(rng, n, general=False):
     import skfem
     # half-integer vertex coordinates of either sign; the right end point is an integer, so that integer typed query
     # arrays can hit it (its replacement, the middle of the last cell, is then NOT an integer)
@@ -384,6 +382,14 @@ def line_mesh(rng, n):
     for i, v in enumerate(xs):
         p[0, perm[i]] = float(v)
     cells = [(perm[i], perm[i + 1]) for i in range(n - 1)]
+    if general and len(cells) >= 3:
+        # gaps: drop some interior cells (a disconnected mesh; the end points of a dropped cell stay as vertices of the
+        # neighbours, a node between two dropped cells becomes an unused node)
+        drop = set(rng.sample(range(1, len(cells) - 1), rng.randrange(1, max(2, len(cells) // 2))))
+        cells = [c for k, c in enumerate(cells) if k not in drop]
+        if rng.random() < 0.5:
+            # an extra unused node somewhere
+            p = np.hstack((p, [[float(xs[0]) - 1.5]]))
     rng.shuffle(cells)
     cells = [c if rng.random() < 0.5 else (c[1], c[0]) for c in cells]
     return skfem.MeshLine1(p, np.array(cells).T)
@@ -468,36 +474,41 @@ def correspond(ctx, facts, batch):
     # ---- 1-D finder: exact on every kind of point
     batch.req = []
     cases = []
-    for _ in range(ctx.n(40, 160)):
-        m = line_mesh(rng, rng.randrange(2, 8))
-        ix = np.argsort(m.p[0])
-        ps = [Fr(v) for v in m.p[0, ix]]
-        maxt = m.t[np.argmax(m.p[0, m.t], 0), np.arange(m.t.shape[1])]
+    for it in range(ctx.n(40, 160)):
+        m = line_mesh(rng, rng.randrange(2, 9), general=(it % 2 == 1))
+        # the tables the code builds: cells sorted by left end
+        ends = np.sort(m.p[0, m.t], axis=0)
+        ix = np.argsort(ends[0])
+        lefts = [Fr(v) for v in ends[0, ix]]
+        rights = [Fr(v) for v in ends[1, ix]]
+        lo, hi = lefts[0], max(rights)
         xs = []
         for _ in range(rng.randrange(1, 6)):
             r = rng.random()
             if r < 0.35:
-                xs.append(rng.choice(ps))
+                xs.append(rng.choice(lefts + rights))
             elif r < 0.8:
-                xs.append(Fr(rng.randrange(int(ps[0]) * 4, int(ps[-1]) * 4 + 1), 4))
+                xs.append(Fr(rng.randrange(int(lo) * 4, int(hi) * 4 + 1), 4))          # may fall into a gap
             else:
-                xs.append(rng.choice([ps[0] - Fr(1, 2), ps[-1] + Fr(1, 2), ps[0] - 3, ps[-1] + 2]))
+                xs.append(rng.choice([lo - Fr(1, 2), hi + Fr(1, 2), lo - 3, hi + 2]))
         dt = None
         if rng.random() < 0.4:
             # integer typed query points (including the right end point and vertices)
-            xs = [Fr(round(float(v))) if ps[0] <= round(float(v)) <= ps[-1] else Fr(int(ps[-1])) for v in xs]
+            xs = [Fr(round(float(v))) if lo <= round(float(v)) <= hi else Fr(int(hi)) for v in xs]
             dt = rng.choice([np.int64, np.int32])
         r = run_finder(m, [(x,) for x in xs], dtype=dt)
         ctx.hist('corr_line_dtype', 'float64' if dt is None else dt.__name__)
-        cases.append((f'({clist([cq(v) for v in ps])}, {clist([cnat(v) for v in ix])}, {clist([cnat(v) for v in maxt])}, '
-                      f'{clist([cq(v) for v in xs])})', enc_res(r), ('line', len(ps), len(xs), r[0])))
+        ctx.hist('corr_line_mesh', 'gaps / unused nodes' if it % 2 == 1 else 'chain')
+        cases.append((f'({clist([cq(v) for v in lefts])}, {clist([cq(v) for v in rights])}, {clist([cnat(v) for v in ix])}, '
+                      f'{clist([cq(v) for v in xs])})', enc_res(r), ('line', len(lefts), len(xs), r[0])))
         ctx.hist('corr_line_result', r[0])
-    batch.add('finder_line', IMPORTS.replace(' Dyn.C14_TieGeom Dyn.C14_TieFinder', '').replace(
-        'Gen.C14GenAffine Gen.C14GenTri Gen.C14GenTet Gen.C14GenSplits Gen.C14GenProbes', ''),
-        'run_line', 'onats_eqb', cases,
-        defs='Definition run_line (a : list Q * list nat * list nat * list Q) := let \'(ps, ixs, maxt, xs) := a in '
-             'line_finder ps ixs maxt xs.\nDefinition onats_eqb := option_eqb nats_eqb.\n',
-        nontrivial=lambda r: r[2] >= 2 or r[3] == 'raises')
+    batch.req = ['gen/C14GenLine.v']
+    batch.add('finder_line', 'From Coq Require Import List Arith QArith Bool.\nRequire Import Model.C14_Finder Gen.C14GenLine.\n'
+              'Local Open Scope Q_scope.\n',
+              'run_line', 'onats_eqb', cases,
+              defs='Definition run_line (a : list Q * list Q * list nat * list Q) := let \'(lefts, rights, ixs, xs) := a in '
+                   'gen_line_finder lefts rights ixs xs.\nDefinition onats_eqb := option_eqb nats_eqb.\n',
+              nontrivial=lambda r: r[2] >= 2 or r[3] == 'raises')
     # ---- probes: the COO index arrays
     batch.req = ['gen/C14GenProbes.v']
     if 'C14GenProbes' in facts:
@@ -770,8 +781,20 @@ def search_finders(ctx):
             if _strictly_convex_quads(mq):
                 break
         check_finder_mesh(ctx, mq, 'convex-quads', rng, pk, stats)
-    for _ in range(ctx.n(4, 12)):
-        check_finder_mesh(ctx, line_mesh(rng, rng.randrange(3, 9)), 'line', rng, max(4, pk // 2), stats)
+    for it in range(ctx.n(8, 24)):
+        ml = line_mesh(rng, rng.randrange(3, 10), general=(it % 2 == 1))
+        extra = []
+        if it % 2 == 1:
+            # points of gaps (between the components of a disconnected mesh): in no cell, the finder must raise
+            ends = np.sort(ml.p[0, ml.t], axis=0)
+            lo_, hi_ = Fr(float(ends.min())), Fr(float(ends.max()))
+            for _ in range(12):
+                xg = (lo_ + (hi_ - lo_) * Fr(rng.randrange(1, 64), 64),)
+                if not any(in_line(ml, c, xg) for c in range(ml.t.shape[1])):
+                    extra.append(('notch', xg))
+            # every vertex that is an end point of a cell (incl. ends next to gaps)
+            extra += [('vertex', (Fr(float(v)),)) for v in np.unique(ends)]
+        check_finder_mesh(ctx, ml, 'line', rng, max(4, pk // 2), stats, extra=extra)
     # general hexahedra (non-planar faces) and prisms with moved nodes: no exact containment formula; points are images
     # F_c(xi) of reference points well inside the cell (margin 1/4), the finder must return c
     nonplanar = {'points': 0, 'other_cell': 0}
